@@ -2,6 +2,7 @@
 package gen
 
 import (
+	"fmt"
 	"math"
 	"math/big"
 	"time"
@@ -181,12 +182,36 @@ func DateSec(t *rapid.T, label string, textSafe bool) int64 {
 	}
 	switch rapid.IntRange(0, 4).Draw(t, label+"class") {
 	case 0:
-		return rapid.SampledFrom([]int64{0, 1, -1, lo, hi, 1700000000, 2147483647, 2147483648, -2147483649}).Draw(t, label)
+		special := []int64{0, 1, -1, lo, hi, 1700000000, 2147483647, 2147483648, -2147483649}
+		if !textSafe {
+			// the first and last second of years 1..9999 (the first one is what Go's unset time.Time holds) and their neighbours
+			special = append(special, minTextSec, minTextSec-1, minTextSec+1, maxTextSec, maxTextSec+1)
+		}
+		return rapid.SampledFrom(special).Draw(t, label)
 	case 1:
 		return rapid.Int64Range(0, 4102444800).Draw(t, label)
 	default:
 		return rapid.Int64Range(lo, hi).Draw(t, label)
 	}
+}
+
+// zoneOffsetsMin: offsets from UTC, in minutes, of the fixed zones date values are placed in (whole minutes only: the
+// RFC 3339 forms the text encodings use cannot express more). A time.Time denotes the same instant in every location.
+var zoneOffsetsMin = []int{-720, -480, -210, -1, 1, 60, 330, 345, 540, 840}
+
+// InZone returns the instant t in the location selected by k: Local for most k, else UTC or a fixed zone.
+func InZone(t time.Time, k int) time.Time {
+	if k < 0 {
+		k = -k
+	}
+	switch k % 8 {
+	case 5:
+		return t.UTC()
+	case 6, 7:
+		off := zoneOffsetsMin[(k/8)%len(zoneOffsetsMin)]
+		return t.In(time.FixedZone(fmt.Sprintf("z%+d", off), off*60))
+	}
+	return t
 }
 
 // IntervalSec draws interval seconds in [0, 2^32).
@@ -273,7 +298,7 @@ func ToValue(n *ttlvref.Node) ttlv.Value {
 	case ttlvref.ByteString:
 		v.Value = append([]byte{}, n.B...)
 	case ttlvref.DateTime:
-		v.Value = time.Unix(n.I, 0)
+		v.Value = InZone(time.Unix(n.I, 0), int(n.I%1000003))
 	case ttlvref.Interval:
 		v.Value = time.Duration(n.I) * time.Second
 	}
